@@ -52,6 +52,18 @@ var gens = []gen{
 	// reflections in the diagonals: orientation reversing with an exactly zero diagonal
 	{"Mul([0 1 0; 1 0 0])", func(m canvas.Matrix) canvas.Matrix { return m.Mul(canvas.Matrix{{0, 1, 0}, {1, 0, 0}}) }, oracle.Aff{A: 0, B: 1, C: 1, D: 0}},
 	{"Mul([0 -1 0; -1 0 0])", func(m canvas.Matrix) canvas.Matrix { return m.Mul(canvas.Matrix{{0, -1, 0}, {-1, 0, 0}}) }, oracle.Aff{A: 0, B: -1, C: -1, D: 0}},
+	// the About variants: the same map with the point (x,y) as its fixed point
+	{"RotateAbout(30,2,-1)", func(m canvas.Matrix) canvas.Matrix { return m.RotateAbout(30, 2, -1) }, about(oracle.AffRotate(30), 2, -1)},
+	{"ScaleAbout(2,0.5,3,1)", func(m canvas.Matrix) canvas.Matrix { return m.ScaleAbout(2, 0.5, 3, 1) }, about(oracle.AffScale(2, 0.5), 3, 1)},
+	{"ShearAbout(0.5,-2,3,1)", func(m canvas.Matrix) canvas.Matrix { return m.ShearAbout(0.5, -2, 3, 1) }, about(oracle.AffShear(0.5, -2), 3, 1)},
+	{"ShearAbout(0,0.5,1,2)", func(m canvas.Matrix) canvas.Matrix { return m.ShearAbout(0, 0.5, 1, 2) }, about(oracle.AffShear(0, 0.5), 1, 2)},
+	{"ReflectXAbout(2)", func(m canvas.Matrix) canvas.Matrix { return m.ReflectXAbout(2) }, about(oracle.AffScale(-1, 1), 2, 0)},
+	{"ReflectYAbout(-1.5)", func(m canvas.Matrix) canvas.Matrix { return m.ReflectYAbout(-1.5) }, about(oracle.AffScale(1, -1), 0, -1.5)},
+}
+
+// about is the map m with (x,y) as its fixed point: translate (x,y) to the origin, apply m, translate back.
+func about(m oracle.Aff, x, y float64) oracle.Aff {
+	return oracle.AffTranslate(x, y).After(m).After(oracle.AffTranslate(-x, -y))
 }
 
 // nWords(k) = number of generator words of length <= k.
